@@ -133,9 +133,9 @@ def perturbations(spec, role):
     return out
 
 
-def audit(spec, role, extra):
+def audit(spec, role, extra, stdout_mode='capture'):
     if role == 'server':
-        return H.audit(make_server(spec), opts=['-n', '--skip-rate-test'] + extra)
+        return H.audit(make_server(spec), opts=['-n', '--skip-rate-test'] + extra, stdout_mode=stdout_mode)
     return H.client_audit(make_client(spec), opts=['-n'] + extra)
 
 
@@ -221,6 +221,12 @@ def check_peer(task, st):
         kind = 'policy-does-not-load' if 'Error while loading policy file' in r1.stdout else 'fails-on-same-peer'
         st.violation('%s:%s:%s' % (kind, role, name_class(spec)), {'spec': spec, 'role': role, 'status': r1.status, 'stdout': r1.stdout[:600], 'policy_file': open(path).read()[-600:]})
         return
+    if role == 'server':
+        # started from cron / a daemon wrapper with stdout closed: the verdict is still delivered through the exit status
+        rc = audit(spec, role, ['-P', path], stdout_mode='closed')
+        st.execution(rc.world, outcome=('same-closed-stdout', rc.status), root=('same-closed', json.dumps(spec, sort_keys=True), role))
+        if rc.status != 0 or rc.exc:
+            st.violation('fails-on-same-peer:stdout-closed', {'spec': spec, 'status': rc.status, 'exc': rc.exc})
     rt = audit(spec, role, ['-P', path])
     pt = report.PolicyText(rt.stdout)
     if rt.status != 0 or pt.result != 'passed':
